@@ -81,10 +81,12 @@ func init() {
 			{Pkg: "fasthttp", Func: "vhC31ParseIPv4", Quick: map[string]int{"maxIP": 9}, Thorough: map[string]int{"maxIP": 10}},
 			{Pkg: "fasthttp", Func: "vhC31IPv4RoundTrip", Quick: map[string]int{"allOctets": 0}, PathCap: 400000},
 			{Pkg: "fasthttp", Func: "vhC31HTTPDateFastPath"},
+			{Pkg: "fasthttp", Func: "vhC31HTTPDateCalendar"},
 			{Pkg: "fasthttp", Func: "vhC31HTTPDateRoundTrip"},
 			{Pkg: "fasthttp", Func: "vhC31IPv6Literal", Quick: map[string]int{"window": 1}, Thorough: map[string]int{"window": 2}, PathCap: 1500000},
 		},
 		Assume: []string{
+			"calendar rules (vhC31HTTPDateCalendar): 28/29/30 Feb, 31 Apr, 31 Dec of every century year CC00 and every year 20YY (digits enumerated, not symbolic: calendar arithmetic is division by constants): the fast parser and ParseHTTPDate accept exactly the dates the interpreted time.Parse accepts, with the same instant",
 			"HTTP dates: the 29-byte input is \"Mon, 02 Jan 2006 15:04:05 GMT\" with one of 15 byte groups (weekday, each separator, day, month, the two low year digits, hour, minute, second, zone) replaced by arbitrary bytes; the fast parser and the standard library's time.Parse / time.Date (interpreted from their own SSA) run on the same symbolic input; several groups symbolic at once and the two high year digits are outside; the AppendHTTPDate round trip is checked on a table of 7 boundary instants only (formatting a symbolic instant needs 64-bit division by calendar constants)",
 			"IPv6 literals: 10 address templates (::, ::1, 1::, eight hextets, inner ::, IPv4-mapped and other IPv4-embedded forms, a zone) with a window of `window` arbitrary bytes overwritten or inserted at every position, compared with net/netip.ParseAddr interpreted from the standard library's SSA; wider windows are outside",
 			"ParseIPv4 inputs are arbitrary byte strings of length ≤ maxIP (a full 15-byte dotted quad is outside the bound; single octets of every length ≤ 4 are covered by vhC31Octet)",
@@ -612,6 +614,7 @@ func init() {
 			{Pkg: "fasthttp", Func: "vhC37Client", NoNative: true, Race: true},
 			{Pkg: "fasthttp", Func: "vhC37FS", NoNative: true, Race: true},
 			{Pkg: "fasthttp", Func: "vhC37LBClient", NoNative: true, Race: true},
+			{Pkg: "fasthttp", Func: "vhC37TimeoutStream", NoNative: true, Race: true},
 			{Pkg: "fasthttp", Func: "vhC38Deadlines", Quick: map[string]int{"calls": 5}, Thorough: map[string]int{"calls": 6}, NoNative: true, Race: true},
 			{Pkg: "fasthttp", Func: "vhC41ConcurrentRotation", NoNative: true, Race: true},
 			{Pkg: "fasthttp", Func: "vhC41Dialer", Quick: map[string]int{"dials": 3}, Thorough: map[string]int{"dials": 4}, NoNative: true, Race: true},
@@ -627,7 +630,7 @@ func init() {
 		Assume: []string{
 			"happens-before race detection inside the symbolic interpreter (engine/interp/race.go): a vector clock per goroutine, a shadow cell (last write, reads since) per memory slot and per map; go statements, mutex / RWMutex lock and unlock, channel send / receive / close / select, WaitGroup, Cond, Pool Get/Put, every sync/atomic operation, the sync.Map model and timer callbacks are acquire and/or release operations (where the exact Go-memory-model edge would need more bookkeeping the model adds edges, so it can miss a race but a missing edge is never the reason for a report); accesses through sync/atomic are synchronisation, not data accesses, so mixed atomic / plain access to one word is not detected; a race whose two sites are both in harness code is not reported",
 			"a race is reported when two accesses to one slot or map, at least one a write, from different goroutines are unordered by happens-before on a path the engine runs — independent of the order the cooperative scheduler ran them in, but only for accesses that both occur on that path; the paths are those of the harness choices (options, request kinds, delays on the virtual clock), not all interleavings",
-			"uses exercised: one Server serving 2–3 connections through the worker pool with counters read from outside and Shutdown during traffic (also the C15 harness); one HostClient / Client called from 2–3 goroutines with MaxConns 1–2, slow and closing servers, idle-connection cleaners and CloseIdleConnections; PipelineClient (the C38 harness); LBClient with concurrent calls, AddClient and RemoveClients (also the C40 harness); TCPDialer concurrent dials and address rotation (the C41 harnesses); one FS handler called from two goroutines with the cache cleaner running; the worker pool (C13 harness), TimeoutHandler with a handler that outlives its deadline and follows the retention rules (C16 harness), the HostClient connection pool under MaxConns (C18 harness), pipelined calls (C04 harness) refused / outliving connections on the Serve path (C14 harness), and fasthttputil's in-memory listener with concurrent dialers, accepter and Close (C33 harness). TLS, compression, streaming bodies, hijacked connections and the race detector's view of the real runtime (native -race runs) are outside; counterexamples are not re-run natively",
+			"uses exercised: one Server serving 2–3 connections through the worker pool with counters read from outside and Shutdown during traffic (also the C15 harness); one HostClient / Client called from 2–3 goroutines with MaxConns 1–2, slow and closing servers, idle-connection cleaners and CloseIdleConnections; PipelineClient (the C38 harness); LBClient with concurrent calls, AddClient and RemoveClients (also the C40 harness); TCPDialer concurrent dials and address rotation (the C41 harnesses); one FS handler called from two goroutines with the cache cleaner running; TimeoutHandler over a streamed request body that is still arriving when the timeout fires (vhC37TimeoutStream); the worker pool (C13 harness), TimeoutHandler with a handler that outlives its deadline and follows the retention rules (C16 harness), the HostClient connection pool under MaxConns (C18 harness), pipelined calls (C04 harness) refused / outliving connections on the Serve path (C14 harness), and fasthttputil's in-memory listener with concurrent dialers, accepter and Close (C33 harness). TLS, compression, streaming bodies, hijacked connections and the race detector's view of the real runtime (native -race runs) are outside; counterexamples are not re-run natively",
 		},
 	})
 }
